@@ -396,7 +396,7 @@ def run(chk: Check) -> int:
     def one_part(p):
         if p == "sim":
             # 3. longer series: TLC simulation (random symbols drawn by TLC, same invariants, same export); runs alongside the BFS parts
-            per_worker = 2 if quick else 100
+            per_worker = 2 if quick else 40
             return p, tlc.run(SPEC, MC / "MC_Metrics_sim.cfg", chk.tmp, workers=12,
                               args=("-simulate", f"num={per_worker}", "-depth", "450", "-seed", str(chk.seed)),
                               timeout=900 if quick else 3000)
